@@ -245,6 +245,7 @@ pub enum Case9 {
     H(HistCase),
     I(IffCase),
     K(ConstCase),
+    M(crate::modelroute::ModelRouteCase),
 }
 impl CaseKind for Case9 {
     const KIND: &'static str = "c09";
@@ -253,6 +254,7 @@ impl CaseKind for Case9 {
             Case9::H(c) => c.size(),
             Case9::I(c) => c.size(),
             Case9::K(c) => c.size(),
+            Case9::M(c) => c.size(),
         }
     }
     fn sample(&self) -> Value {
@@ -260,6 +262,7 @@ impl CaseKind for Case9 {
             Case9::H(c) => c.sample(),
             Case9::I(c) => c.sample(),
             Case9::K(c) => c.sample(),
+            Case9::M(c) => c.sample(),
         }
     }
     fn run(&self) -> Outcome {
@@ -267,6 +270,7 @@ impl CaseKind for Case9 {
             Case9::H(c) => c.run(),
             Case9::I(c) => c.run(),
             Case9::K(c) => c.run(),
+            Case9::M(c) => c.run(),
         }
     }
 }
@@ -288,6 +292,7 @@ pub fn dispatch(kind: &str, v: &Value) -> Option<Outcome> {
         "history" => serde_json::from_value::<HistCase>(v.clone()).ok().map(|c| c.run()),
         "c09-iff" => serde_json::from_value::<IffCase>(v.clone()).ok().map(|c| c.run()),
         "c09-const" => serde_json::from_value::<ConstCase>(v.clone()).ok().map(|c| c.run()),
+        "model-route" => serde_json::from_value::<crate::modelroute::ModelRouteCase>(v.clone()).ok().map(|c| c.run()),
         // the D11 regression is a single-operation gradient case
         "grad-op" => serde_json::from_value::<GradCase>(v.clone()).ok().map(|c| c.run()),
         _ => None,
@@ -299,6 +304,11 @@ pub fn campaigns(ctx: &Ctx) -> Stats {
     let t = ctx.tier;
     let iff = iff_cases();
     st.merge(ctx.run_indexed("result-tracked-iff-an-operand-is", iff.len() as u64, Some("every built-in operation (all parameterisations of matmul incl. the additive term, conv, element-wise, unary, reductions, reshape) x every tracked/untracked assignment of its operands: result tracked <=> some operand tracked; with all operands untracked each operand can be moved into a Vec while the result is alive"), |i| Some(Case9::I(iff[i as usize].clone()))));
+    // tracked arrays handed to Model::forward / Model::backward are used tracked: they receive what they receive by hand
+    {
+        let rc = crate::modelroute::route_cases("c09", ctx.seed, t == Tier::Thorough);
+        st.merge(ctx.run_indexed("through-model-vs-by-hand", rc.len() as u64, None, |i| Some(Case9::M(rc[i as usize].clone()))));
+    }
     let (len, total) = t.pick((18usize, 160000u64), (60, 800000));
     for (name, exact) in [("flag-histories-exact", true), ("flag-histories-mixed", false)] {
         let cfg = cfg_for(t, exact);
